@@ -3,6 +3,7 @@ import Httoop.Model.Form
 import Httoop.Model.Utf8
 import Httoop.Model.PyInt
 import Httoop.Model.Inet
+import Httoop.Model.StartLine
 /-
   Model of httoop/uri/uri.py (class URI and its scheme subclasses).
 
@@ -263,7 +264,8 @@ structure Sets where
   path : Byte → Bool
   fragment : Byte → Bool
 
-def natToDec (n : Nat) : Bytes := (toString n).toUTF8.toList
+/-- `b'%d' % port` (the same digit loop as in the start line) -/
+def natToDec (n : Nat) : Bytes := StartLine.natToDec n
 
 /-- `host.encode('idna')` for ASCII text (the codec's fast path): label length checks only. -/
 def idnaEncodeAscii (h : Bytes) : R Bytes :=
